@@ -386,12 +386,21 @@ func (b *c03Bin) cleanup() {
 
 // run executes `goawk -f <file with src>`; returns exit status (-1: timeout / could not run) and stderr.
 func (b *c03Bin) run(id int, src []byte) (int, string) {
+	st, msg := b.runOnce(id, src, 30*time.Second)
+	if st == -1 {
+		// a loaded machine can starve the child; the same text was already rejected in-process, so try again patiently
+		st, msg = b.runOnce(id, src, 300*time.Second)
+	}
+	return st, msg
+}
+
+func (b *c03Bin) runOnce(id int, src []byte, limit time.Duration) (int, string) {
 	f := filepath.Join(b.dir, fmt.Sprintf("p%d.awk", id))
 	if err := os.WriteFile(f, src, 0o644); err != nil {
 		return -1, err.Error()
 	}
 	defer os.Remove(f)
-	ctx, cancel := context.WithTimeout(context.Background(), 20*time.Second)
+	ctx, cancel := context.WithTimeout(context.Background(), limit)
 	defer cancel()
 	cmd := exec.CommandContext(ctx, b.path, "-f", f)
 	cmd.Dir = b.dir
